@@ -5,6 +5,7 @@ import (
 	"os"
 	"path/filepath"
 	"strings"
+	"sync"
 
 	"github.com/spf13/afero"
 
@@ -73,6 +74,8 @@ func c09RunImpl(c corr.Case) []string {
 				return "case"
 			case "snapshot":
 				return SnapLine(SnapshotMem(st.mem))
+			case "relroot-os":
+				return c09RelRootOS(string(corr.UnHex(t[1])), string(corr.UnHex(t[2])))
 			case "symlink-os":
 				return c09SymlinkOS(string(corr.UnHex(t[1])), string(corr.UnHex(t[2])), string(corr.UnHex(t[3])))
 			case "fullpath":
@@ -147,6 +150,59 @@ func c09SymlinkOS(root, oldname, newname string) string {
 	return "ok"
 }
 
+// c09RelRootOS: a relative root directly on the operating system's file system. RealPath and FullBaseFsPath are the
+// joined relative path (Join(root, name)), and an operation through the wrapper is the operation on the source with the
+// root prepended — also after the working directory has changed (the root is relative to the working directory of the
+// moment of the call, like every relative name handed to the OS). Runs in a scratch directory; the working directory is
+// restored.
+var c09Chdir sync.Mutex
+
+func c09RelRootOS(root, name string) string {
+	c09Chdir.Lock()
+	defer c09Chdir.Unlock()
+	old, err := os.Getwd()
+	if err != nil {
+		return "skipped: no working directory"
+	}
+	defer os.Chdir(old)
+	tmp, err := os.MkdirTemp("", "verif-c09rel-")
+	if err != nil {
+		return "fail: " + err.Error()
+	}
+	defer os.RemoveAll(tmp)
+	for _, d := range []string{"one", "two"} {
+		os.MkdirAll(filepath.Join(tmp, d, root, "sub"), 0o755)
+		os.WriteFile(filepath.Join(tmp, d, root, "data.txt"), []byte("in "+d), 0o644)
+	}
+	if err := os.Chdir(filepath.Join(tmp, "one")); err != nil {
+		return "fail: " + err.Error()
+	}
+	b := afero.NewBasePathFs(afero.NewOsFs(), root).(*afero.BasePathFs)
+	want := filepath.Join(root, name)
+	if got, err := b.RealPath(name); err != nil || got != filepath.Clean(want) {
+		return fmt.Sprintf("fail: RealPath(%q) below the root %q = %q, %v; the joined path is %q", name, root, got, err, filepath.Clean(want))
+	}
+	if got := afero.FullBaseFsPath(b, name); got != want {
+		return fmt.Sprintf("fail: FullBaseFsPath = %q, the joined path is %q", got, want)
+	}
+	read := func() string {
+		got, err1 := afero.ReadFile(b, "data.txt")
+		ref, err2 := os.ReadFile(filepath.Join(root, "data.txt"))
+		if (err1 == nil) != (err2 == nil) || string(got) != string(ref) {
+			return fmt.Sprintf("fail: reading data.txt through the wrapper gives %q, %v; the source with the root prepended gives %q, %v", got, err1, ref, err2)
+		}
+		return ""
+	}
+	if r := read(); r != "" {
+		return r
+	}
+	os.Chdir(filepath.Join(tmp, "two"))
+	if r := read(); r != "" {
+		return r + " (after a change of the working directory)"
+	}
+	return "ok"
+}
+
 func c09Oracle(c corr.Case, impl []string) (string, int) {
 	var st *bpStack
 	var twin afero.Fs
@@ -157,7 +213,7 @@ func c09Oracle(c corr.Case, impl []string) (string, int) {
 			return "call panics: " + t[0], i
 		}
 		switch {
-		case t[0] == "symlink-os":
+		case t[0] == "symlink-os" || t[0] == "relroot-os":
 			if strings.HasPrefix(impl[i], "fail") {
 				return impl[i], i
 			}
@@ -304,6 +360,14 @@ func c09SymlinkCases() []corr.Case {
 			cases = append(cases, corr.Case{Lines: l})
 		}
 	}
+	// relative roots directly on the operating system's file system
+	lr := []string{c09Header([]string{"bp", "/base"})}
+	for _, root := range []string{"rel", "rel/deeper", "./rel", "rel/"} {
+		for _, n := range []string{"x", "/x", "sub/y", "", "/"} {
+			lr = append(lr, "relroot-os "+h(root)+" "+h(n))
+		}
+	}
+	cases = append(cases, corr.Case{Lines: lr})
 	return cases
 }
 
